@@ -1,6 +1,7 @@
 package main
 
 import (
+	"os"
 	"fmt"
 	"regexp"
 	"strconv"
@@ -217,7 +218,7 @@ func rulePrefix(c *Ctx, prefix string, want map[string]bool) {
 				if !regexp.MustCompile(`^` + keyC + `$`).MatchString(ex.Canon(st, x.Key).S) {
 					addb("PD.OWN-KEY", "leases are recorded under a key other than recordKey(client id of the inner message): "+shortName(ex.Canon(st, x.Key).S))
 				}
-				checkAccumulator(c, addb, x.Value)
+				checkAccumulator(c, addb, x.Value, x)
 			}
 		}
 		if in == ssa.Instruction(addOpt) {
@@ -267,6 +268,32 @@ func rulePrefix(c *Ctx, prefix string, want map[string]bool) {
 			return
 		}
 		// inner loops: marks belong to one (hint, lease) pair
+		// EMPTY-REUSE: a lease found not yet given out in this exchange is passed over only
+		// because the hint asks for a different length
+		for _, k := range sortedKeys(st.hist) {
+			f := st.hist[k]
+			if f.Kind != "bool" || f.Val || !strings.HasPrefix(f.X, "(*"+pkgBitset+".BitSet).Test(") || !strings.Contains(f.X, "Records[") {
+				continue
+			}
+			m := regexp.MustCompile(`,(conv<uint>\(.*\))\)$`).FindStringSubmatch(f.X)
+			if m == nil || st.seen["set:givenOut:"+m[1]] {
+				continue
+			}
+			counts["passed-over"]++
+			mismatch := false
+			for _, k2 := range sortedKeys(st.hist) {
+				g := st.hist[k2]
+				if os.Getenv("CDLINT_DEBUG_KEEP") != "" {
+					fmt.Fprintf(os.Stderr, "KEEPDBG %s | %s\n", f.X, g.String())
+				}
+				if g.Kind == "eqv" && !g.Val && strings.Contains(g.X+g.Y, "(net.IPMask).Size(") && strings.Contains(g.X+g.Y, "Records[") {
+					mismatch = true
+				}
+			}
+			if !mismatch {
+				addb("KEEP.EMPTY-REUSE", fmt.Sprintf("in the loop at %s a recorded lease that has not been given out in this exchange is passed over for a reason other than a requested length that differs from the lease's (decided on the path: %s): a hint-less repeat does not get the client's prefix back", loopPos(c, header.Parent(), header.Index), strings.Join(shortAll(st.HistStrings()), " ∧ ")))
+			}
+		}
 		for l := range st.seen {
 			if strings.HasPrefix(l, "set:") || strings.HasPrefix(l, "extend:") {
 				delete(st.seen, l)
@@ -371,6 +398,10 @@ func rulePrefix(c *Ctx, prefix string, want map[string]bool) {
 		emit("KEEP.REUSE-FIRST", "new blocks are allocated only for hints that no known lease satisfied")
 		emit("KEEP.MARK", "handing back a known lease marks both the hint and the lease")
 		emit("KEEP.EXACT", "a known lease is reused only for an equal hinted prefix or as a not-yet-given lease for an empty hint")
+		if counts["passed-over"] == 0 {
+			addb("KEEP.EMPTY-REUSE", "no loop over the recorded leases tests the given-out bitmap: shape not recognised")
+		}
+		emit("KEEP.EMPTY-REUSE", fmt.Sprintf("a recorded lease not yet given out is passed over only when the hint's requested length differs from the lease's (%d abstract iteration states)", counts["passed-over"]))
 	}
 }
 
@@ -389,7 +420,7 @@ func checkExpire(c *Ctx, addb func(rule, s string), e string) {
 // checkAccumulator: the value stored for the client is built by appends whose
 // base is the running accumulator (a loop phi fed by the append itself) seeded
 // with the known leases, so no lease of an earlier iteration is dropped.
-func checkAccumulator(c *Ctx, addb func(rule, s string), v ssa.Value) {
+func checkAccumulator(c *Ctx, addb func(rule, s string), v ssa.Value, at ssa.Instruction) {
 	appends := 0
 	for _, o := range valueOrigins(v) {
 		call, ok := o.(*ssa.Call)
@@ -419,8 +450,19 @@ func checkAccumulator(c *Ctx, addb func(rule, s string), v ssa.Value) {
 		// the accumulator is seeded with the known leases
 		seeded := false
 		for _, e := range ph.Edges {
-			if _, ok := e.(*ssa.Lookup); ok {
+			if lk, ok := e.(*ssa.Lookup); ok {
 				seeded = true
+				// read-modify-write per iteration: the record must be re-read in every loop
+				// iteration that writes it back, or the write of iteration k+1 is built from
+				// the record as it was before the loop and overwrites what iteration k recorded
+				if at != nil {
+					info := InfoOf(at.Parent())
+					for h, body := range info.LoopOf {
+						if body[at.Block().Index] && !body[lk.Block().Index] {
+							addb("KEEP.RECORD-ALL", fmt.Sprintf("the record written back at %s inside the loop at %s is built from a lookup made before that loop (%s): a later iteration overwrites the leases an earlier iteration recorded", c.P.InstrPos(at), loopPos(c, at.Parent(), h), c.P.InstrPos(lk)))
+						}
+					}
+				}
 			}
 		}
 		if !seeded {
@@ -467,4 +509,38 @@ func ruleSamePrefix(c *Ctx, rule string, fn *ssa.Function) {
 	} else {
 		c.R.ok(rule, "samePrefix", c.P.Pos(fn.Pos()), shortFn(fn), "true only under IP.Equal ∧ bytes.Equal(Mask) with both arguments non-nil")
 	}
+}
+
+// loopPos: a printable position for the loop with header block h (the first
+// instruction of the loop that has one; rotated range loops have NoPos headers).
+func loopPos(c *Ctx, fn *ssa.Function, h int) string {
+	info := InfoOf(fn)
+	best := ""
+	for _, b := range fn.Blocks {
+		if !info.LoopOf[h][b.Index] {
+			continue
+		}
+		for _, in := range b.Instrs {
+			if in.Pos().IsValid() {
+				p := c.P.Pos(in.Pos())
+				if best == "" || posLess(p, best) {
+					best = p
+				}
+			}
+		}
+	}
+	if best == "" {
+		return "-"
+	}
+	return best
+}
+
+func posLess(a, b string) bool {
+	pa, pb := strings.Split(a, ":"), strings.Split(b, ":")
+	if len(pa) < 2 || len(pb) < 2 || pa[0] != pb[0] {
+		return a < b
+	}
+	x, _ := strconv.Atoi(pa[1])
+	y, _ := strconv.Atoi(pb[1])
+	return x < y
 }
